@@ -54,11 +54,13 @@ def huge_programs():
 def kind_domain(kind, vals):
     if kind == "B":
         return [0, 1]
+    if kind == "A":
+        return [-2, 0, 3]       # element of an array operand (integer secret from a small set: arrays have many operands)
     return vals
 
 
 def make_operand(kind, v):
-    if kind in ("S", "Z"):
+    if kind in ("S", "Z", "A"):
         return H.rt.PrivVal(v)
     if kind in ("K", "V", "W", "M"):
         return v
@@ -221,6 +223,13 @@ def depth1_programs(include_bool=True, include_assert=True, include_fxp=False):
                       "kinds": list(kinds)})
     progs.append({"expr": ("op", "if_else", ("in", 0), ("in", 1), ("in", 2)),
                   "kinds": ["B", "S", "S"]})
+    # whole-array arithmetic and selection (two-element arrays)
+    progs.append({"expr": ("op", "array_add", ("in", 0), ("in", 1), ("in", 2), ("in", 3)), "kinds": ["A", "A", "A", "A"]})
+    progs.append({"expr": ("op", "array_sub", ("in", 0), ("in", 1), ("in", 2), ("in", 3)), "kinds": ["A", "A", "A", "A"]})
+    for k3 in ("S", "K"):
+        progs.append({"expr": ("op", "array_adds", ("in", 0), ("in", 1), ("in", 2)), "kinds": ["A", "A", k3]})
+        progs.append({"expr": ("op", "array_scale", ("in", 0), ("in", 1), ("in", 2)), "kinds": ["A", "A", k3]})
+    progs.append({"expr": ("op", "array_ite", ("in", 0), ("in", 1), ("in", 2), ("in", 3), ("in", 4)), "kinds": ["B", "A", "A", "A", "A"]})
     # recomposition from a list of entries that need not be bits (value and wire must still agree)
     for kinds in (("S", "S", "S"), ("B", "S", "B"), ("S", "K", "S")):
         progs.append({"expr": ("op", "from_bits3", ("in", 0), ("in", 1), ("in", 2)), "kinds": list(kinds)})
